@@ -52,6 +52,7 @@ def main():
         print('patch does not apply', o)
         sys.exit(2)
     ENV['VERIF_REPO'] = wt
+    ENV['VERIF_SCRATCH'] = os.path.join(wt, '_scratch')   # keeps /verif/evidence and /verif/work of the clean tree untouched
     meta['checks'] = {}
     try:
         for c in checks:
@@ -65,6 +66,8 @@ def main():
     finally:
         sh('git checkout -- .', wt)
         ENV.pop('VERIF_REPO', None)
+        ENV.pop('VERIF_SCRATCH', None)
+        shutil.rmtree(os.path.join(wt, '_scratch'), ignore_errors=True)
     meta['needs'] = open(os.path.join(out, 'notes.md')).read()[:1500]
     json.dump(meta, open(os.path.join(out, 'meta.json'), 'w'), indent=1)
 
